@@ -1,4 +1,4 @@
-import Norad.Lemmas.Kerning
+import Norad.Lemmas.C10
 /-!
 # C10 — loading and saving are deterministic (the kerning / feature upconversion part)
 
@@ -82,5 +82,54 @@ theorem rename_tables_lookup_only (t t' : Table) (hp : t.Perm t') (hn : (keys t)
     | some u =>
       have := lookup_of_mem_nodup hn (hp.symm.subset (lookup_mem h'))
       rw [h] at this; cases this
+
+/-! ## the repaired code: no hash order is left on a result-affecting path -/
+
+/-- **upconvert_order_independent** (full, for the code as repaired): whatever order — and however
+    often — the names were inserted into the two sets (`ins1`, `ins2`: any lists with the elements of
+    the sets, e.g. any permutation), visiting the resulting `BTreeSet`s gives the one result
+    `upconvertKerning` computes.  No hash order is left on this path. -/
+theorem upconvert_order_independent (sfx : Nat → Str) (g : Groups) (k : Kerning) (S : List Str)
+    (ins1 ins2 : List Str) (h1 : ∀ a, a ∈ ins1 ↔ a ∈ firstSet g k S)
+    (h2 : ∀ a, a ∈ ins2 ↔ a ∈ secondSet g k S) :
+    upconvertWith sfx (sortDedup ins1) (sortDedup ins2) g k = upconvertKerning sfx g k S := by
+  unfold upconvertKerning
+  rw [sortDedup_congr h1, sortDedup_congr h2]
+
+/-- in particular for every pair of permutations -/
+theorem upconvert_perm_independent (sfx : Nat → Str) (g : Groups) (k : Kerning) (S : List Str)
+    (ins1 ins2 : List Str) (h1 : ins1.Perm (firstSet g k S)) (h2 : ins2.Perm (secondSet g k S)) :
+    upconvertWith sfx (sortDedup ins1) (sortDedup ins2) g k = upconvertKerning sfx g k S :=
+  upconvert_order_independent sfx g k S ins1 ins2 (fun _ => h1.mem_iff) (fun _ => h2.mem_iff)
+
+/-- **features_order_independent** (full, for the code as repaired): the feature text does not depend
+    on the order in which the block map (`HashMap<String, String>`) holds or yields its entries. -/
+theorem features_order_independent (classes : Option Str) (order : Option (List Str))
+    (b b' : List (Str × Str)) (hp : b.Perm b') (hn : (keys b).Nodup) :
+    featuresText classes order (some b) = featuresText classes order (some b') := by
+  unfold featuresText featuresTextWith
+  have hk : sortDedup (keys b) = sortDedup (keys b') :=
+    sortDedup_perm (List.Perm.map (fun e : Str × Str => e.1) hp)
+  simp only [Option.getD_some, hk, joinBlocks_perm hp hn]
+
+/-- with a `featureorder` list the text never depended on the map order (the guard of the partial
+    theorem before the repair) -/
+theorem features_with_order_list (ko ko' : List Str) (classes : Option Str) (ord : List Str)
+    (b : Option (List (Str × Str))) :
+    featuresTextWith ko classes (some ord) b = featuresTextWith ko' classes (some ord) b := by
+  unfold featuresTextWith; simp
+
+example : featuresText none none (some [("liga".toList, "L".toList), ("kern".toList, "K".toList)])
+    = "\nKL".toList := by decide
+
+/-! OPEN (not proved, observed by the harness oracle `sorted=1` on every saved tree):
+
+  theorem written_plists_sorted : every dictionary norad writes (lib.plist, layerinfo.plist, glyph libs:
+    `recursive_sort_plist_keys`, util.rs:11-18; groups.plist, kerning.plist, contents.plist: `BTreeMap`)
+    has ascending keys, recursively through dictionaries (dictionaries inside arrays keep insertion
+    order, which is a function of the value).  Needs a nested plist-value model.
+
+  theorem store_save_order_independent : the data/images stores are `HashMap`s iterated at save time;
+    writes to pairwise different files commute (needs the abstract FS of C16/C09). -/
 
 end Kern
